@@ -27,6 +27,10 @@ class PumlLeg(R.RenderLeg):
             "multiset with orientation and sides); oracle = the statement; non-trivial = some internal link is a self-loop or parallel")
     quick_n = 200
     thorough_n = 5000
+    # render_to_plantuml_src walks a SET of links: when two different links make it raise (an unconfigured class: ValueError;
+    # a link that lost an end: IndexError) the exception TYPE depends on the set's iteration order, i.e. on memory addresses.
+    # The model fixes one order, so graphs holding links that lost an end are left to the other renderers' legs and to C13.
+    lost_end_links = False
 
     def queries_for(self, rng, u):
         return [["PUML", u, ci] for ci in range(5)] + [["PUML", u, 1, "grow_from", 4]]
